@@ -191,14 +191,28 @@ func planFor(bin, property, tier string) []job {
 }
 
 func runWorker(bin string, j job, timeout time.Duration) (*result, error) {
+	r, _, err := runWorkerProcs(bin, j, timeout, 1)
+	return r, err
+}
+
+func runWorkerProcs(bin string, j job, timeout time.Duration, procs int) (*result, string, error) {
+	r, se, err := runWorkerRaw(bin, j, timeout, procs)
+	return r, se, err
+}
+
+func runWorkerRaw(bin string, j job, timeout time.Duration, procs int) (*result, string, error) {
 	b, _ := json.Marshal(j)
-	cmd := exec.Command("bash", "-c", "ulimit -v 12000000; exec \"$0\" -job \"$1\"", bin, string(b))
-	cmd.Env = append(os.Environ(), "GOMAXPROCS=1")
+	limit := "ulimit -v 12000000; "
+	if procs > 1 {
+		limit = "" // the race detector reserves a huge virtual address range
+	}
+	cmd := exec.Command("bash", "-c", limit+"exec \"$0\" -procs \"$2\" -job \"$1\"", bin, string(b), strconv.Itoa(procs))
+	cmd.Env = append(os.Environ(), "GOMAXPROCS="+strconv.Itoa(procs), "GORACE=halt_on_error=0")
 	var stdout, stderr bytes.Buffer
 	cmd.Stdout = &stdout
 	cmd.Stderr = &stderr
 	if err := cmd.Start(); err != nil {
-		return nil, err
+		return nil, "", err
 	}
 	done := make(chan error, 1)
 	go func() { done <- cmd.Wait() }()
@@ -209,22 +223,26 @@ func runWorker(bin string, j job, timeout time.Duration) (*result, error) {
 			if len(tail) > 6000 {
 				tail = tail[:3000] + "\n...\n" + tail[len(tail)-3000:]
 			}
-			if v := crashViolation(stderr.String(), j); v != nil {
-				return &result{Job: j, Engine: "crash", Violations: []violation{*v}, ViolCount: map[string]int{v.Kind + "/" + v.Subject: 1}}, nil
+			if procs > 1 && strings.Contains(stderr.String(), "WARNING: DATA RACE") {
+				// the race detector makes the process exit non-zero; the report is what matters
+				return &result{Job: j, Engine: "race-pass"}, stderr.String(), nil
 			}
-			return nil, fmt.Errorf("worker failed: %v\n%s", err, tail)
+			if v := crashViolation(stderr.String(), j); v != nil {
+				return &result{Job: j, Engine: "crash", Violations: []violation{*v}, ViolCount: map[string]int{v.Kind + "/" + v.Subject: 1}}, "", nil
+			}
+			return nil, "", fmt.Errorf("worker failed: %v\n%s", err, tail)
 		}
 	case <-time.After(timeout):
 		cmd.Process.Kill()
 		<-done
-		return nil, fmt.Errorf("worker exceeded hard timeout %v", timeout)
+		return nil, "", fmt.Errorf("worker exceeded hard timeout %v", timeout)
 	}
 	var r result
 	lines := strings.Split(strings.TrimSpace(stdout.String()), "\n")
 	if err := json.Unmarshal([]byte(lines[len(lines)-1]), &r); err != nil {
-		return nil, fmt.Errorf("bad worker output: %v: %.300s", err, stdout.String())
+		return nil, "", fmt.Errorf("bad worker output: %v: %.300s", err, stdout.String())
 	}
-	return &r, nil
+	return &r, stderr.String(), nil
 }
 
 // crashViolation: an unrecoverable runtime failure (fatal error, unrecovered panic) whose stack
@@ -451,6 +469,78 @@ func main() {
 	}
 	wg.Wait()
 
+	// side condition (thorough tier): the same scenario bodies free-running under the race detector.
+	// Sampling, never a verdict: a report is printed as ASSUMPTION-FAILED and recorded in the evidence.
+	racePass := map[string]any{"enabled": false}
+	var raceReports []string
+	if *tier == "thorough" || os.Getenv("VERIF_RACE") == "1" {
+		raceRuns, raceJobs := 0, 0
+		raceBins := map[string]string{}
+		var rmu sync.Mutex
+		var rwg sync.WaitGroup
+		rsem := make(chan struct{}, 2)
+		for _, j := range jobs {
+			sc, _ := j["scenario"].(string)
+			if sc != "cache.conc" && sc != "c15.hashmap" && sc != "c16.mpsc" && sc != "c17.striped" {
+				continue
+			}
+			variant, _ := j["variant"].(string)
+			if _, ok := raceBins[variant]; !ok {
+				raceBins[variant], _ = prepare(variant, true)
+			}
+			jj := job{}
+			for k, v := range j {
+				jj[k] = v
+			}
+			jj["race"] = 200
+			jj["shards"] = 1
+			jj["shard"] = 0
+			jj["budget_s"] = 20
+			raceJobs++
+			rwg.Add(1)
+			rsem <- struct{}{}
+			go func(jj job, bin string) {
+				defer rwg.Done()
+				defer func() { <-rsem }()
+				r, se, err := runWorkerProcs(bin, jj, 3*time.Minute, 8)
+				rmu.Lock()
+				defer rmu.Unlock()
+				if err != nil {
+					raceReports = append(raceReports, "race pass could not run: "+oneLine(err.Error()))
+					return
+				}
+				raceRuns += r.Executions
+				if i := strings.Index(se, "WARNING: DATA RACE"); i >= 0 {
+					rep := se[i:]
+					if k := strings.Index(rep, "=================="); k > 0 {
+						rep = rep[:k]
+					}
+					if len(rep) > 2500 {
+						rep = rep[:2500]
+					}
+					raceReports = append(raceReports, fmt.Sprintf("scenario %v %v: %s", jj["scenario"], jj["params"], rep))
+				}
+			}(jj, raceBins[variant])
+		}
+		rwg.Wait()
+		racePass = map[string]any{"enabled": true, "jobs": raceJobs, "free_running_executions": raceRuns, "reports": len(raceReports)}
+		seenRep := map[string]bool{}
+		for _, rep := range raceReports {
+			key := rep
+			if i := strings.Index(rep, "WARNING"); i >= 0 {
+				key = rep[i:]
+			}
+			if len(key) > 600 {
+				key = key[:600]
+			}
+			if seenRep[key] {
+				continue
+			}
+			seenRep[key] = true
+			fmt.Printf("ASSUMPTION-FAILED property=%s data race (free-running side-condition pass; not a verdict): %s\n", property, rep)
+		}
+	}
+
 	// aggregate
 	findings := loadFindings()
 	known := map[string]finding{}
@@ -653,6 +743,8 @@ func main() {
 			"violation_signatures":  unknownSigs,
 			"instrumenter_skips":    skipsOf(instrs),
 			"engines":               keys(engines),
+			"race_pass":             racePass,
+			"assumption_failures":   raceReports,
 		},
 		"assumptions": []string{
 			"interleavings are at the granularity of sync and sync/atomic operations (sequentially consistent); plain memory accesses are assumed race-free",
